@@ -349,6 +349,13 @@ pub fn scenario_enr_answer(seed: u64, rep: &mut Report) {
                     rep.violation("C01:established-for-third-node-without-proof", format!("a node dialled without record answered the ENR request with another node's record and that node was reported as established at {addr}"), json!({"scenario_seed": seed.to_string(), "variant": variant, "kind": "enr-answer", "trace": trace_tail(&e, 30)}));
                 }
             }
+            // Y took part in no handshake: it may not be reported as unverifiable either (the
+            // service drops a node so reported from its routing table)
+            if let Ev::Out(HandlerOut::UnverifiableEnr { node_id, socket, .. }) = &t.ev {
+                if node_id.raw() == y_id {
+                    rep.violation("C01:unverifiableenr-for-third-node-without-proof", format!("a node dialled without record answered the ENR request with another node's record and that node was reported as unverifiable at {socket}"), json!({"scenario_seed": seed.to_string(), "variant": variant, "kind": "enr-answer", "trace": trace_tail(&e, 30)}));
+                }
+            }
         }
         rep.fingerprint(&("enr-answer", variant));
     });
